@@ -245,6 +245,14 @@ impl<'a> GetLastStateProofProcess<'a> {
 
         // Check the request data.
         {
+            // The start block should not be after the last block.
+            if start_block_number > last_block_number {
+                let errmsg = format!(
+                    "the start block number {start_block_number} is greater than \
+                    the last block number {last_block_number}"
+                );
+                return StatusCode::InvalidRequest.with_context(errmsg);
+            }
             // The difficulties should be sorted.
             if difficulties.windows(2).any(|d| d[0] >= d[1]) {
                 let errmsg = "the difficulties should be monotonically increasing";
